@@ -122,45 +122,52 @@ theorem look_congr_fun {S : Schema} {l : List DNode} {p p' : DNode} (h : ∀ x, 
 def Local (S : Schema) (c : DNode) (L L' : List DNode) : Prop :=
   ∀ q, Dom S q → matchP S c q = false → look S L' q = look S L q
 
+/-- the list keys among the siblings belong to schema nodes in front of the one of `c` -/
+def KeysBelow (S : Schema) (c : DNode) (L : List DNode) : Prop := ∀ k ∈ keysOf S L, k.sid < c.sid
+
 theorem probe_eq {S : Schema} (K : KeyOrder S) {q c x : DNode} (hq : Dom S q) (hc : Dom S c) (hx : Dom S x)
     (hcx : matchP S c x = true) : matchP S q x = matchP S c q := by
   rw [matchP_right_congr K hq hc hx hcx, matchP_symm K hq hc]
 
-theorem fwd_set {S : Schema} (K : KeyOrder S) {L : List DNode} (hg : goodL S L = true) {c x x' : DNode} (hc : Dom S c)
-    (hl : look S L c = some x) (hx' : goodN S x' = true) (hsame : matchP S x x' = true) :
-    ∃ i, findForApply S L c = some i ∧ L[i]? = some x ∧ goodL S (L.set i x') = true ∧ Local S c L (L.set i x') ∧
-      look S (L.set i x') c = some x' := by
-  obtain ⟨i, hi, hix, hcx⟩ := look_some_findIdx K hg hc hl
-  have hxd : Dom S x := goodL_allDom K hg x (List.mem_of_getElem? hix)
-  obtain ⟨h1, h2⟩ := good_set K hg hix hx' hsame
-  refine ⟨i, hi, hix, h1, ?_, ?_⟩
+theorem fwd_set {S : Schema} (K : KeyOrder S) {L : List DNode} (hg : goodT S L = true) {c x x' : DNode} (hc : Dom S c)
+    (hck : S.isKey c.sid = false) (hl : look S L c = some x) (hx' : goodN S x' = true) (hsame : matchP S x x' = true) :
+    ∃ i, findForApply S L c = some i ∧ L[i]? = some x ∧ goodT S (L.set i x') = true ∧
+      keysOf S (L.set i x') = keysOf S L ∧ Local S c L (L.set i x') ∧ look S (L.set i x') c = some x' := by
+  obtain ⟨i, hi, hix, hcx⟩ := look_some_findIdx K (goodT_goodL hg) hc hl
+  have hxd : Dom S x := goodL_allDom K (goodT_goodL hg) x (List.mem_of_getElem? hix)
+  have hxs : x.sid = c.sid := matchP_sid hcx
+  obtain ⟨h1, hk, h2⟩ := goodT_set K hg hix hx' hsame (by rw [hxs]; exact hck)
+  refine ⟨i, hi, hix, h1, hk, ?_, ?_⟩
   · intro q hq hcq
     rw [h2 q hq, probe_eq K hq hc hxd hcx, hcq]
     simp
   · rw [h2 c hc, hcx]
     simp
 
-theorem fwd_erase {S : Schema} (K : KeyOrder S) {L : List DNode} (hg : goodL S L = true) {c x : DNode} (hc : Dom S c)
-    (hl : look S L c = some x) :
-    ∃ i, findForApply S L c = some i ∧ L[i]? = some x ∧ goodL S (L.eraseIdx i) = true ∧ Local S c L (L.eraseIdx i) ∧
-      look S (L.eraseIdx i) c = none := by
-  obtain ⟨i, hi, hix, hcx⟩ := look_some_findIdx K hg hc hl
-  have hxd : Dom S x := goodL_allDom K hg x (List.mem_of_getElem? hix)
-  obtain ⟨h1, h2⟩ := good_eraseIdx K hg hix
-  refine ⟨i, hi, hix, h1, ?_, ?_⟩
+theorem fwd_erase {S : Schema} (K : KeyOrder S) {L : List DNode} (hg : goodT S L = true) {c x : DNode} (hc : Dom S c)
+    (hck : S.isKey c.sid = false) (hl : look S L c = some x) :
+    ∃ i, findForApply S L c = some i ∧ L[i]? = some x ∧ goodT S (L.eraseIdx i) = true ∧
+      keysOf S (L.eraseIdx i) = keysOf S L ∧ Local S c L (L.eraseIdx i) ∧ look S (L.eraseIdx i) c = none := by
+  obtain ⟨i, hi, hix, hcx⟩ := look_some_findIdx K (goodT_goodL hg) hc hl
+  have hxd : Dom S x := goodL_allDom K (goodT_goodL hg) x (List.mem_of_getElem? hix)
+  have hxs : x.sid = c.sid := matchP_sid hcx
+  obtain ⟨h1, hk, h2⟩ := goodT_eraseIdx K hg hix (by rw [hxs]; exact hck)
+  refine ⟨i, hi, hix, h1, hk, ?_, ?_⟩
   · intro q hq hcq
     rw [h2 q hq, probe_eq K hq hc hxd hcx, hcq]
     simp
   · rw [h2 c hc, hcx]
     simp
 
-theorem fwd_insert {S : Schema} (K : KeyOrder S) {L : List DNode} (hg : goodL S L = true) {c n : DNode} (hc : Dom S c)
-    (hl : look S L c = none) (hn : goodN S n = true) (hcn : ∀ x, matchP S n x = matchP S c x) (hcn' : matchP S c n = true) :
-    goodL S (insertNode S L n) = true ∧ Local S c L (insertNode S L n) ∧ look S (insertNode S L n) c = some n := by
+theorem fwd_insert {S : Schema} (K : KeyOrder S) {L : List DNode} (hg : goodT S L = true) {c n : DNode} (hc : Dom S c)
+    (hck : S.isKey c.sid = false) (hkb : KeysBelow S c L) (hl : look S L c = none) (hn : goodN S n = true)
+    (hns : n.sid = c.sid) (hcn : ∀ x, matchP S n x = matchP S c x) (hcn' : matchP S c n = true) :
+    goodT S (insertNode S L n) = true ∧ keysOf S (insertNode S L n) = keysOf S L ∧ Local S c L (insertNode S L n) ∧
+      look S (insertNode S L n) c = some n := by
   have hnd := goodN_dom hn
   have hln : look S L n = none := by rw [look_congr_fun hcn]; exact hl
-  obtain ⟨h1, h2⟩ := good_insertNode K hg hn hln
-  refine ⟨h1, ?_, ?_⟩
+  obtain ⟨h1, hk, h2⟩ := goodT_insertNode K hg hn hln (by rw [hns]; exact hck) (by rw [hns]; exact hkb)
+  refine ⟨h1, hk, ?_, ?_⟩
   · intro q hq hcq
     rw [h2 q hq, probe_eq K hq hc hnd hcn', hcq]
     simp
@@ -177,13 +184,13 @@ theorem exactE_base {S : Schema} {inh : Option Op} {e : Option DNode} {c : DNode
     exact ⟨domB_iff.mp h.1.1.1, metaOKB_iff.mp h.1.1.2, h.1.2⟩
 
 theorem exactE_create {S : Schema} {inh : Option Op} {e : Option DNode} {c : DNode} (h : exactE S inh e c = true)
-    (hop : effOp inh c = some .create) : e = none ∧ plainL c.kids = true ∧ goodL S c.kids = true := by
-  cases c <;> simp only [exactE, Bool.and_eq_true, hop] at h <;> cases e <;> simp_all [DNode.kids, plainL, goodL]
+    (hop : effOp inh c = some .create) : e = none ∧ plainL c.kids = true ∧ goodT S c.kids = true := by
+  cases c <;> simp only [exactE, Bool.and_eq_true, hop] at h <;> cases e <;> simp_all [DNode.kids, plainL, goodT_nil]
 
 theorem exactE_delete {S : Schema} {inh : Option Op} {e : Option DNode} {c : DNode} (h : exactE S inh e c = true)
     (hop : effOp inh c = some .delete) :
-    ∃ x, e = some x ∧ dataEq true x c = true ∧ plainL c.kids = true ∧ goodL S c.kids = true := by
-  cases c <;> simp only [exactE, Bool.and_eq_true, hop] at h <;> cases e <;> simp_all [DNode.kids, plainL, goodL]
+    ∃ x, e = some x ∧ dataEq true x c = true ∧ plainL c.kids = true ∧ goodT S c.kids = true := by
+  cases c <;> simp only [exactE, Bool.and_eq_true, hop] at h <;> cases e <;> simp_all [DNode.kids, plainL, goodT_nil]
 
 theorem setKids_kids (x : DNode) : x.setKids x.kids = x := by cases x <;> rfl
 
@@ -240,32 +247,33 @@ theorem apply_create_node {S : Schema} (K : KeyOrder S) {n : Nat} {hp : Bool} {i
 
 /-- the reversed node `c'` undoes the forward effect `e ↦ e1` wherever `e1` sits at the place of `c` -/
 def Restores (S : Schema) (n : Nat) (hp : Bool) (inh : Option Op) (c c' : DNode) (e1 e : Option DNode) : Prop :=
-  ∀ X, goodL S X = true → look S X c = e1 →
-    ∃ X', applyNode S n X hp inh c' = .ok X' ∧ goodL S X' = true ∧ Local S c X X' ∧
+  ∀ X, goodT S X = true → KeysBelow S c X → look S X c = e1 →
+    ∃ X', applyNode S n X hp inh c' = .ok X' ∧ goodT S X' = true ∧ keysOf S X' = keysOf S X ∧ Local S c X X' ∧
       (look S X' c).map normN = e.map normN
 
 def NodeRevConcl (S : Schema) (c : DNode) (n : Nat) (hp : Bool) (inh : Option Op) (e : Option DNode) : Prop :=
   ∃ c', revNode S inh (revDup c) = .ok c' ∧ c'.height = c.height ∧ c'.sid = c.sid ∧
     (∀ x, matchP S c' x = matchP S c x) ∧
-    ∀ L, goodL S L = true → look S L c = e →
-      ∃ L', applyNode S n L hp inh c = .ok L' ∧ goodL S L' = true ∧ Local S c L L' ∧
+    ∀ L, goodT S L = true → KeysBelow S c L → look S L c = e →
+      ∃ L', applyNode S n L hp inh c = .ok L' ∧ goodT S L' = true ∧ keysOf S L' = keysOf S L ∧ Local S c L L' ∧
         Restores S n hp inh c c' (look S L' c) e
 
 def NodeRevSpec (S : Schema) (c : DNode) : Prop :=
-  ∀ (n : Nat) (hp : Bool) (inh : Option Op) (e : Option DNode), c.height ≤ n → exactE S inh e c = true →
-    NodeRevConcl S c n hp inh e
+  ∀ (n : Nat) (hp : Bool) (inh : Option Op) (e : Option DNode), c.height ≤ n → (∀ x, e = some x → goodN S x = true) →
+    exactE S inh e c = true → NodeRevConcl S c n hp inh e
 
 /-- the diff children that are applied: all of them, or all but the leading list keys -/
 def dk (S : Schema) (leading : Bool) (D : List DNode) : List DNode := if leading then noKeys S D else D
 
 def ListRevSpec (S : Schema) (D : List DNode) : Prop :=
-  ∀ (n : Nat) (hp : Bool) (inh : Option Op) (L : List DNode) (leading : Bool), heightL D ≤ n → goodL S L = true →
+  ∀ (n : Nat) (hp : Bool) (inh : Option Op) (L : List DNode) (leading : Bool), heightL D ≤ n → goodT S L = true →
     exactK S inh L leading D = true →
     ∃ R, revL S inh (revDupL D) = .ok R ∧ heightL R = heightL D ∧ (dk S leading R).isEmpty = (dk S leading D).isEmpty ∧
-      ∃ L1, applyF S n hp inh (dk S leading D) L = .ok L1 ∧ goodL S L1 = true ∧
+      normL (keysOf S R) = normL (keysOf S D) ∧
+      ∃ L1, applyF S n hp inh (dk S leading D) L = .ok L1 ∧ goodT S L1 = true ∧ keysOf S L1 = keysOf S L ∧
         (∀ q, Dom S q → (∀ c ∈ dk S leading D, matchP S c q = false) → look S L1 q = look S L q) ∧
-        ∀ X, goodL S X = true → (∀ c ∈ dk S leading D, look S X c = look S L1 c) →
-          ∃ X2, applyF S n hp inh (dk S leading R) X = .ok X2 ∧ goodL S X2 = true ∧
+        ∀ X, goodT S X = true → keysOf S X = keysOf S L → (∀ c ∈ dk S leading D, look S X c = look S L1 c) →
+          ∃ X2, applyF S n hp inh (dk S leading R) X = .ok X2 ∧ goodT S X2 = true ∧ keysOf S X2 = keysOf S X ∧
             (∀ q, Dom S q → (∀ c ∈ dk S leading D, matchP S c q = false) → look S X2 q = look S X q) ∧
             (∀ c ∈ dk S leading D, (look S X2 c).map normN = (look S L c).map normN)
 
@@ -289,19 +297,19 @@ theorem nodeRev_create {S : Schema} (K : KeyOrder S) {c : DNode} {n : Nat} {hp :
   have hmatch : ∀ x, matchP S (changeOp (revDup c) .delete) x = matchP S c x := fun x =>
     matchP_congr_norm (by simpa using hd.ndi) hnorm rfl
   refine ⟨_, hrev, by rw [height_changeOp, height_revDup], by simp, hmatch, ?_⟩
-  intro L hgL hl
+  intro L hgL hkb hl
   have hmk : ∀ x, matchP S (mkCreated c) x = matchP S c x := fun x =>
     matchP_congr_norm (by simpa using hd.ndi) (normN_mkCreated c) rfl
   have hmk' : matchP S c (mkCreated c) = true := by
     rw [matchP_congr_norm hd.ndi rfl (normN_mkCreated c)]
     exact matchP_refl K hd
-  obtain ⟨h1, h2, h3⟩ := fwd_insert K hgL hd hl (by rw [goodN_mkCreated]; exact hgc) hmk hmk'
-  refine ⟨_, apply_create_node K hh hop hpl hgc, h1, h2, ?_⟩
-  intro X hgX hlX
+  obtain ⟨h1, hkk, h2, h3⟩ := fwd_insert K hgL hd hk hkb hl (by rw [goodN_mkCreated]; exact hgc) (by simp) hmk hmk'
+  refine ⟨_, apply_create_node K hh hop hpl hgc, h1, hkk, h2, ?_⟩
+  intro X hgX _ hlX
   rw [h3] at hlX
-  obtain ⟨i, hi, _, hg', hloc, hnone⟩ := fwd_erase K hgX hd hlX
+  obtain ⟨i, hi, _, hg', hkX, hloc, hnone⟩ := fwd_erase K hgX hd hk hlX
   obtain ⟨k, rfl⟩ : ∃ k, n = k + 1 := ⟨n - 1, by have := height_pos c; omega⟩
-  refine ⟨X.eraseIdx i, ?_, hg', hloc, by rw [hnone]⟩
+  refine ⟨X.eraseIdx i, ?_, hg', hkX, hloc, by rw [hnone]⟩
   rw [applyNode_succ_nuo (by simpa using hd.nuo), effOp_changeOp (metaOK_revDup hm)]
   simp only [findForApply_congr_fun hmatch, hi]
 
@@ -321,13 +329,13 @@ theorem nodeRev_delete {S : Schema} (K : KeyOrder S) {c : DNode} {n : Nat} {hp :
   have hmatch : ∀ x, matchP S (changeOp (revDup c) .create) x = matchP S c x := fun x =>
     matchP_congr_norm (by simpa using hd.ndi) hnorm rfl
   refine ⟨_, hrev, by rw [height_changeOp, height_revDup], by simp, hmatch, ?_⟩
-  intro L hgL hl
-  obtain ⟨i, hi, _, hg', hloc, hnone⟩ := fwd_erase K hgL hd hl
+  intro L hgL _ hl
+  obtain ⟨i, hi, _, hg', hkL, hloc, hnone⟩ := fwd_erase K hgL hd hk hl
   obtain ⟨k, rfl⟩ : ∃ k, n = k + 1 := ⟨n - 1, by have := height_pos c; omega⟩
-  refine ⟨L.eraseIdx i, ?_, hg', hloc, ?_⟩
+  refine ⟨L.eraseIdx i, ?_, hg', hkL, hloc, ?_⟩
   · rw [applyNode_succ_nuo hd.nuo, hop]
     simp only [hi]
-  · intro X hgX hlX
+  · intro X hgX hkbX hlX
     rw [hnone] at hlX
     let c' := changeOp (revDup c) .create
     have hgc' : goodN S c' = true := by rw [goodN_congr_norm hnorm]; exact hgc
@@ -340,9 +348,10 @@ theorem nodeRev_delete {S : Schema} (K : KeyOrder S) {c : DNode} {n : Nat} {hp :
     have hmk' : matchP S c (mkCreated c') = true := by
       rw [matchP_congr_norm hd.ndi rfl ((normN_mkCreated c').trans hnorm)]
       exact matchP_refl K hd
-    obtain ⟨h1, h2, h3⟩ := fwd_insert K hgX hd hlX (by rw [goodN_mkCreated]; exact hgc') hmk hmk'
+    obtain ⟨h1, hkk, h2, h3⟩ := fwd_insert K hgX hd hk hkbX hlX (by rw [goodN_mkCreated]; exact hgc') (by simp [c'])
+      hmk hmk'
     refine ⟨_, apply_create_node K (by rw [height_changeOp, height_revDup]; exact hh)
-      (effOp_changeOp (metaOK_revDup hm) .create) hpl' hgc', h1, h2, ?_⟩
+      (effOp_changeOp (metaOK_revDup hm) .create) hpl' hgc', h1, hkk, h2, ?_⟩
     rw [h3]
     simp only [Option.map_some, Option.some.injEq]
     rw [normN_mkCreated, hnorm, hxn]
@@ -399,22 +408,24 @@ theorem exactE_none_term {S : Schema} {inh : Option Op} {e : Option DNode} {c : 
 
 /-- `replace` of a leaf: the value and the flags of the diff node, in place -/
 theorem apply_replace_leaf {S : Schema} (K : KeyOrder S) {Y : List DNode} {c r y : DNode} {k : Nat} {hp : Bool} {inh : Option Op}
-    (hgY : goodL S Y = true) (hc : Dom S c) (hlY : look S Y c = some y) (hrm : ∀ x, matchP S r x = matchP S c x)
+    (hgY : goodT S Y = true) (hc : Dom S c) (hck : S.isKey c.sid = false) (hlY : look S Y c = some y)
+    (hrm : ∀ x, matchP S r x = matchP S c x)
     (hrs : r.sid = c.sid) (hleaf : S.isKind c.sid .leaf = true) (hop : effOp inh r = some .replace) (hne : y.val ≠ r.val) :
-    ∃ Y', applyNode S (k + 1) Y hp inh r = .ok Y' ∧ goodL S Y' = true ∧ Local S c Y Y' ∧
+    ∃ Y', applyNode S (k + 1) Y hp inh r = .ok Y' ∧ goodT S Y' = true ∧ keysOf S Y' = keysOf S Y ∧ Local S c Y Y' ∧
       look S Y' c = some ((y.setVal r.val).setFlags r.flags) := by
   have hym := look_mem hlY
-  have hyd : Dom S y := goodL_allDom K hgY y hym.1
+  have hgY' := goodT_goodL hgY
+  have hyd : Dom S y := goodL_allDom K hgY' y hym.1
   have hys : y.sid = c.sid := matchP_sid hym.2
-  have hgy : goodN S y = true := ((goodL_iff K).mp hgY).2 y hym.1
+  have hgy : goodN S y = true := ((goodL_iff K).mp hgY').2 y hym.1
   have hg1 : goodN S ((y.setVal r.val).setFlags r.flags) = true := by
     rw [goodN_iff]
     refine ⟨⟨by simpa using hyd.nuo, by simpa using hyd.ndi, by simpa using hyd.typed⟩, ?_⟩
-    simpa using goodN_kids hgy
+    simpa using goodN_kidsT hgy
   have hsame : matchP S y ((y.setVal r.val).setFlags r.flags) = true :=
     matchP_leaf (by rw [hys]; exact hleaf) (by simp)
-  obtain ⟨i, hi, hix, hg', hloc, hl'⟩ := fwd_set K hgY hc hlY hg1 hsame
-  refine ⟨_, ?_, hg', hloc, hl'⟩
+  obtain ⟨i, hi, hix, hg', hkk, hloc, hl'⟩ := fwd_set K hgY hc hck hlY hg1 hsame
+  refine ⟨_, ?_, hg', hkk, hloc, hl'⟩
   rw [applyNode_succ_nuo (by rw [hrs]; exact hc.nuo), hop]
   simp only [hrs, hleaf, Bool.not_true, Bool.false_eq_true, ↓reduceIte, findForApply_congr_fun hrm, hi, hix]
   have : (y.val == r.val && !y.flags.dflt) = false := by
@@ -424,22 +435,24 @@ theorem apply_replace_leaf {S : Schema} (K : KeyOrder S) {Y : List DNode} {c r y
 
 /-- `none` on a leaf / leaf-list instance: the default flag of the diff node -/
 theorem apply_none_term {S : Schema} (K : KeyOrder S) {Y : List DNode} {c r y : DNode} {k : Nat} {hp : Bool} {inh : Option Op}
-    (hgY : goodL S Y = true) (hc : Dom S c) (hlY : look S Y c = some y) (hrm : ∀ x, matchP S r x = matchP S c x)
+    (hgY : goodT S Y = true) (hc : Dom S c) (hck : S.isKey c.sid = false) (hlY : look S Y c = some y)
+    (hrm : ∀ x, matchP S r x = matchP S c x)
     (hrs : r.sid = c.sid) (hop : effOp inh r = some .none) (hyt : y.isTerm = true) :
-    ∃ Y', applyNode S (k + 1) Y hp inh r = .ok Y' ∧ goodL S Y' = true ∧ Local S c Y Y' ∧
+    ∃ Y', applyNode S (k + 1) Y hp inh r = .ok Y' ∧ goodT S Y' = true ∧ keysOf S Y' = keysOf S Y ∧ Local S c Y Y' ∧
       look S Y' c = some (y.setDflt r.flags.dflt) := by
   have hym := look_mem hlY
-  have hyd : Dom S y := goodL_allDom K hgY y hym.1
-  have hgy : goodN S y = true := ((goodL_iff K).mp hgY).2 y hym.1
+  have hgY' := goodT_goodL hgY
+  have hyd : Dom S y := goodL_allDom K hgY' y hym.1
+  have hgy : goodN S y = true := ((goodL_iff K).mp hgY').2 y hym.1
   have hg1 : goodN S (y.setDflt r.flags.dflt) = true := by
     rw [goodN_iff]
     refine ⟨⟨by simpa using hyd.nuo, by simpa using hyd.ndi, by simpa using hyd.typed⟩, ?_⟩
-    simpa using goodN_kids hgy
+    simpa using goodN_kidsT hgy
   have hsame : matchP S y (y.setDflt r.flags.dflt) = true := by
     rw [matchP_of_same_data_right (x := y) hyd.ndi (by simp) (by simp) (by simp)]
     exact matchP_refl K hyd
-  obtain ⟨i, hi, hix, hg', hloc, hl'⟩ := fwd_set K hgY hc hlY hg1 hsame
-  refine ⟨_, ?_, hg', hloc, hl'⟩
+  obtain ⟨i, hi, hix, hg', hkk, hloc, hl'⟩ := fwd_set K hgY hc hck hlY hg1 hsame
+  refine ⟨_, ?_, hg', hkk, hloc, hl'⟩
   rw [applyNode_succ_nuo (by rw [hrs]; exact hc.nuo), hop]
   simp only [findForApply_congr_fun hrm, hi, hix, hyt, ↓reduceIte]
 
@@ -549,22 +562,23 @@ theorem nodeRev_replace {S : Schema} (K : KeyOrder S) {c : DNode} {n : Nat} {hp 
     show (((revDup c).setVal x.val).setMetas _).height = 1
     rw [height_setMetas, height_setVal, height_revDup, height_term hct]
   refine ⟨c', hrev, hch, hcs, hmatch, ?_⟩
-  intro L hgL hl
+  intro L hgL _ hl
   have hxm := look_mem hl
-  have hxd : Dom S x := goodL_allDom K hgL x hxm.1
+  have hxd : Dom S x := goodL_allDom K (goodT_goodL hgL) x hxm.1
   have hxt : x.isTerm = true := by
     rw [hxd.typed, matchP_sid hxm.2]
     exact isTerm_of_leaf hleaf
-  obtain ⟨L', ha, hg', hloc, hl'⟩ := apply_replace_leaf (k := k) (hp := hp) (inh := inh) K hgL hd hl (fun _ => rfl) rfl hleaf hop
-    (Ne.symm hne)
-  refine ⟨L', ha, hg', hloc, ?_⟩
-  intro X hgX hlX
+  obtain ⟨L', ha, hg', hkL, hloc, hl'⟩ := apply_replace_leaf (k := k) (hp := hp) (inh := inh) K hgL hd hk hl (fun _ => rfl) rfl
+    hleaf hop (Ne.symm hne)
+  refine ⟨L', ha, hg', hkL, hloc, ?_⟩
+  intro X hgX _ hlX
   rw [hl'] at hlX
   have hne2 : ((x.setVal c.val).setFlags c.flags).val ≠ c'.val := by
     rw [val_setFlags, val_setVal_term hxt, hcv]
     exact hne
-  obtain ⟨X', hb, hgX', hlocX, hlX'⟩ := apply_replace_leaf (k := k) (hp := hp) (inh := inh) K hgX hd hlX hmatch hcs hleaf hcop hne2
-  refine ⟨X', hb, hgX', hlocX, ?_⟩
+  obtain ⟨X', hb, hgX', hkX, hlocX, hlX'⟩ := apply_replace_leaf (k := k) (hp := hp) (inh := inh) K hgX hd hk hlX hmatch hcs
+    hleaf hcop hne2
+  refine ⟨X', hb, hgX', hkX, hlocX, ?_⟩
   rw [hlX']
   simp only [Option.map_some, Option.some.injEq]
   apply normN_term_eq (by simpa using hxt) hxt (by simp)
@@ -594,19 +608,20 @@ theorem nodeRev_none_term {S : Schema} (K : KeyOrder S) {c : DNode} {n : Nat} {h
       rw [hk', kids_revDup, kids_term hct]
       rfl) y
   refine ⟨c', hrev, by rw [hh', height_revDup], hcs, hmatch, ?_⟩
-  intro L hgL hl
+  intro L hgL _ hl
   have hxm := look_mem hl
-  have hxd : Dom S x := goodL_allDom K hgL x hxm.1
+  have hxd : Dom S x := goodL_allDom K (goodT_goodL hgL) x hxm.1
   have hxt : x.isTerm = true := by
     rw [hxd.typed, matchP_sid hxm.2]
     exact hSt
-  obtain ⟨L', ha, hg', hloc, hl'⟩ := apply_none_term (k := k) (hp := hp) (inh := inh) K hgL hd hl (fun _ => rfl) rfl hop hxt
-  refine ⟨L', ha, hg', hloc, ?_⟩
-  intro X hgX hlX
+  obtain ⟨L', ha, hg', hkL, hloc, hl'⟩ := apply_none_term (k := k) (hp := hp) (inh := inh) K hgL hd hk hl (fun _ => rfl) rfl hop
+    hxt
+  refine ⟨L', ha, hg', hkL, hloc, ?_⟩
+  intro X hgX _ hlX
   rw [hl'] at hlX
-  obtain ⟨X', hb, hgX', hlocX, hlX'⟩ := apply_none_term (k := k) (hp := hp) (inh := inh) K hgX hd hlX hmatch hcs hcop
+  obtain ⟨X', hb, hgX', hkX, hlocX, hlX'⟩ := apply_none_term (k := k) (hp := hp) (inh := inh) K hgX hd hk hlX hmatch hcs hcop
     (by simpa using hxt)
-  refine ⟨X', hb, hgX', hlocX, ?_⟩
+  refine ⟨X', hb, hgX', hkX, hlocX, ?_⟩
   rw [hlX']
   simp only [Option.map_some, Option.some.injEq]
   apply normN_term_eq (by simpa using hxt) hxt (by simp) (by simp)
